@@ -83,12 +83,14 @@ def extract():
     fmt_padding = m.group(1)
     m = need(re.search(r'format!\("\{\}([^"{]*)", name\.as_str\(\)\)', vf), 'vftable type name template')
     fmt_vftable = m.group(1)
-    m = need(re.search(r'format!\("\{\}([^"{]*)\{\}", base_name, original_name\)', td), 'renamed function template')
+    # the three derived names are built from identifiers without their `r#` prefix
+    m = need(re.search(r'format!\(\s*"\{\}([^"{]*)\{\}",\s*base_name\.strip_prefix\("r#"\)\.unwrap_or\(&base_name\),\s*original_name\.strip_prefix\("r#"\)\.unwrap_or\(&original_name\)\s*\)', td), 'renamed function template')
     fmt_renamed_sep = m.group(1)
-    m = need(re.search(r'format_ident!\("([^"{]*)\{\}", ev\.name\)', be), 'extern getter template')
+    m = need(re.search(r'format_ident!\("([^"{]*)\{\}", unraw\(&ev\.name\)\)', be), 'extern getter template')
     fmt_getter = m.group(1)
-    m = need(re.search(r'format_ident!\("([^"{]*)\{\}([^"{]*)", name\.as_str\(\)\)', be), 'size check name template')
+    m = need(re.search(r'format_ident!\("([^"{]*)\{\}([^"{]*)", unraw\(name\.as_str\(\)\)\)', be), 'size check name template')
     fmt_sc_pre, fmt_sc_post = m.group(1), m.group(2)
+    need(re.search(r'fn unraw\(s: &str\) -> &str \{\s*s\.strip_prefix\("r#"\)\.unwrap_or\(s\)\s*\}', be), 'unraw helper')
     m = need(re.search(r'name: Some\("(\w+)"\.to_string\(\)\)', vf), 'vftable field name')
     vftable_field = m.group(1)
     this_names = set(re.findall(r'Argument::(?:ConstSelf|MutSelf) => \(\s*"(\w+)"\.to_string\(\)', vf))
@@ -157,9 +159,11 @@ def extract():
     w('def fmtPaddingField (offsetHexLower : String) : String := %s ++ offsetHexLower' % lean_str(fmt_padding))
     w('def fmtPlaceholderFn (index : String) : String := %s ++ index' % lean_str(fmt_placeholder))
     w('def fmtVftableType (name : String) : String := name ++ %s' % lean_str(fmt_vftable))
-    w('def fmtRenamed (base fn : String) : String := base ++ %s ++ fn' % lean_str(fmt_renamed_sep))
-    w('def fmtExternGetter (name : String) : String := %s ++ name' % lean_str(fmt_getter))
-    w('def fmtSizeCheck (name : String) : String := %s ++ name ++ %s' % (lean_str(fmt_sc_pre), lean_str(fmt_sc_post)))
+    w('/-- `s.strip_prefix("r#").unwrap_or(s)`: a raw identifier without its prefix -/')
+    w('def unraw (s : String) : String := match s.toList with | \'r\' :: \'#\' :: rest => String.ofList rest | _ => s')
+    w('def fmtRenamed (base fn : String) : String := unraw base ++ %s ++ unraw fn' % lean_str(fmt_renamed_sep))
+    w('def fmtExternGetter (name : String) : String := %s ++ unraw name' % lean_str(fmt_getter))
+    w('def fmtSizeCheck (name : String) : String := %s ++ unraw name ++ %s' % (lean_str(fmt_sc_pre), lean_str(fmt_sc_post)))
     w('def vftableFieldName : String := %s' % lean_str(vftable_field))
     w('def thisArgName : String := %s' % lean_str(this_name))
     w('')
